@@ -225,8 +225,8 @@ def cmp_cases(rng, bits):
 
 
 def _gen(rng, tier):
-    nh = 2500 if tier == 'quick' else 800000
-    draws = 1000 if tier == 'quick' else 10000
+    nh = 15000 if tier == 'quick' else 800000
+    draws = 2000 if tier == 'quick' else 10000
     for bits in WIDTHS:
         for kind in GENS:
             yield 'gen %d %s %d %d' % (bits, kind, rng.randrange(1 << 32), draws)
